@@ -18,9 +18,11 @@
    sanitizer flagged (OldKernelsUnsafe), which ties the model to the observed
    reports. *)
 EXTENDS Integers, Sequences, FiniteSets, TLC
+CONSTANTS Ns
 VARIABLES call
 vars == <<call>>
-Ns == {0, 1, 2, 3, 5}
+QuickNs == {0, 1, 2, 3, 5}
+ThoroughNs == {0, 1, 2, 3, 4, 5, 17, 64, 257}      \* boundary lengths and a few larger ones
 VC == {"fin", "nan", "mixnan", "lastnan", "pinf", "ninf", "neg", "huge", "zero"}
 Shapes == {<<1, 1>>, <<1, 3>>, <<3, 1>>, <<2, 3>>}
 FDs == {"se", "sink", "invalid", "cycle", "west", "mix"}
